@@ -330,6 +330,14 @@ impl Generator {
             4 => {
                 let cands: Vec<&Doc> = c.docs.iter().filter(|d| d.disk.is_some()).collect();
                 let d = *rng.pick(&cands);
+                if rng.chance(1, 3) && !open_docs.is_empty() {
+                    // a file watcher also reports files (or their directory) as created or changed,
+                    // e.g. after a save: that is no reason to forget an open document
+                    let o = *rng.pick(&open_docs);
+                    let uri = if rng.chance(1, 4) { o.uri.rsplit_once('/').map(|x| x.0.to_string()).unwrap_or_else(|| o.uri.clone()) } else { o.uri.clone() };
+                    let typ = *rng.pick(&[1, 2]);
+                    return Some(msg(wait, notif("workspace/didChangeWatchedFiles", json!({"changes":[{"uri":uri,"type":typ}]}))));
+                }
                 if rng.chance(1, 4) {
                     // the whole directory goes: every document below it is affected
                     let dir_uri = d.uri.rsplit_once('/').map(|x| x.0.to_string()).unwrap_or_else(|| d.uri.clone());
